@@ -121,4 +121,16 @@ CHECKS = {
         "level_note": "Oracle encoding/json go1.23.5 (Compact, Indent, Valid) and the harness recogniser (cross-checked with encoding/json.Valid per case).",
         "assumptions": ["'equivalent text' for HTMLEscape = same value under encoding/json decoding with last-duplicate-wins objects"],
     },
+    "C09": {
+        "pkg": "c09", "variants": [PLAIN],
+        "rule": ("chunks: rapid draws a destination (interface{} or a generated type), and 1-4 valid documents with separators, a document padded across the 512/1024-byte buffer boundaries, or a "
+                 "single-byte mutation; the stream is drained through a whole-text reader and through every single cut (<= 48 bytes), every pair of cuts (<= 24 bytes), fixed piece sizes 1,2,3,5,7,16,17 and three "
+                 "drawn chunkings with zero-length reads; oracle: all outcomes (values, EOF/error) identical, and for valid documents equal to Unmarshal document by document. tokens: Token/More/InputOffset "
+                 "sequences equal encoding/json's on valid texts under a drawn chunking. faults: the reader fails with a non-EOF error at a drawn byte; if the first value is not complete in the delivered bytes "
+                 "Decode must fail with the reader's error. Non-trivial = a read boundary falls inside a token, or the text is longer than 512 bytes, or a fault is injected; distinct by hash(type, text[, chunking])."),
+        "technique": "property-based metamorphic testing (chunking invariance, stream vs buffer) with exhaustive small-scope cut enumeration, differential token streams against encoding/json, reader fault injection",
+        "level_text": "Exhaustive cut positions for short inputs, sampled chunkings for long ones, randomised documents/destinations; exploration level.",
+        "level_note": "The reader schedule is owned by the harness (ChunkReader records the boundaries actually observed). Offsets after errors and token streams of invalid documents are not compared.",
+        "assumptions": ["Unmarshal's result on each single document is the reference for the stream"],
+    },
 }
